@@ -288,7 +288,8 @@ func (vm *Vm) runCatch(ctx context.Context, b []byte) ([]byte, error) {
 		if err != nil {
 			return b, err
 		}
-		b = bh
+		// the resource's slice may be shared: do not adopt it as the buffer later appended to
+		b = append([]byte{}, bh...)
 	}
 	return b, nil
 }
